@@ -144,8 +144,9 @@ def proof_step(pid, thorough):
 TRANSLATE = os.path.join(VERIF, "translate")
 GEN_DIR = os.path.join(LEAN, "GoSSE", "Gen")
 GEN_EQUIV = "GoSSE.Proofs.GenEquiv"
-GEN_EQUIV_MODS = ["GoSSE.Proofs.GenEquiv", "GoSSE.Proofs.GenEquivQueue", "GoSSE.Proofs.GenEquivFields"]
-GEN_MODS = ["Parser", "Root", "Fields"]   # in import order
+GEN_EQUIV_MODS = ["GoSSE.Proofs.GenEquiv", "GoSSE.Proofs.GenEquivQueue", "GoSSE.Proofs.GenEquivFields",
+                  "GoSSE.Proofs.GenEquivScan"]
+GEN_MODS = ["Parser", "Root", "Bufio", "Fields"]   # in import order
 
 
 def _theorem_at(path, lineno):
